@@ -163,53 +163,6 @@ void h_ra_first_entry_of_next(void)
   VERIF_CANARY();
 }
 
-/* the local contract of register_set: one linked register of arbitrary
- * type / constraint / default at any offset of one memory-backed area of
- * RB_SZ words, any handle of a table of up to RB_NE registers, any value */
-void h_c04_register_set(void)
-{
-  GHOST_HAVOC();
-  IN(uint32_t, in_entries) IN(uint32_t, in_idx)
-  ASSUME(in_idx < in_entries && in_entries <= RB_NE);
-  RegisterEntry *in_elist = malloc(sizeof(RegisterEntry) * RB_NE);
-  RegisterArea *a = malloc(sizeof(RegisterArea));
-  RegisterTable *t = malloc(sizeof(RegisterTable));
-  RegisterAtom *in_amem = malloc(sizeof(RegisterAtom) * RB_SZ);
-  ASSUME(in_elist != NULL && a != NULL && t != NULL && in_amem != NULL);
-  IN(uint32_t, in_abase) IN(uint16_t, in_aflags) IN(_Bool, in_awrite)
-  for (uint32_t w = 0; w < RB_SZ; w++) {
-    IN(uint16_t, in_aword)
-    in_amem[w] = in_aword;
-  }
-  a->read = reg_mem_read; a->write = in_awrite ? reg_mem_write : NULL;
-  a->flags = in_aflags; a->base = in_abase; a->size = RB_SZ; a->mem = in_amem;
-  for (uint32_t j = 0; j < RB_NE; j++) {   /* no stray pointers in the other entries */
-    in_elist[j].area = a; in_elist[j].name = NULL; in_elist[j].user = NULL;
-  }
-  RegisterEntry *e = &in_elist[in_idx];
-  IN(uint8_t, in_etype) IN(uint64_t, in_edefault) IN(uint32_t, in_eaddr) IN(uint32_t, in_eoffset)
-  IN(uint8_t, in_echeck) IN(uint64_t, in_emin) IN(uint64_t, in_emax)
-  ASSUME(in_etype <= REG_TYPE_FLOAT64 && in_echeck <= REGV_TYPE_CALLBACK);
-  e->type = (RegisterType)in_etype;
-  ASSUME(in_eoffset <= RB_SZ && RB_WORDS(e->type) <= RB_SZ - in_eoffset);
-  e->default_value.u64 = in_edefault; e->address = in_eaddr; e->area = a; e->offset = in_eoffset;
-  e->check.type = (RegisterValidatorType)in_echeck;
-  e->check.arg.range.min.u64 = in_emin; e->check.arg.range.max.u64 = in_emax;
-  if (e->check.type == REGV_TYPE_CALLBACK)
-    e->check.arg.cb = st_validator;
-  IN(uint16_t, in_tflags) IN(uint16_t, in_tareas)
-  t->flags = in_tflags | REG_TF_INITIALISED; t->areas = in_tareas; t->area = a;
-  t->entries = in_entries; t->entry = in_elist;
-  IN(uint8_t, in_vtype) IN(uint64_t, in_vbits)
-  ASSUME(in_vtype <= REG_TYPE_INVALID);
-  RegisterValue v; v.type = (RegisterType)in_vtype; v.value.u64 = in_vbits;
-#if VERIF_IS_NATIVE
-  { IN(uint64_t, in_cb_seed) st_cb_seed = in_cb_seed; }
-#endif
-  register_set(t, in_idx, v);
-  VERIF_CANARY();
-}
-
 /* ---- bounded (tier B) table family ------------------------------------
  * A description has in_na <= RB_NA areas and in_ne <= RB_NE registers, each
  * list closed by its terminator, all in exact-size heap blocks.  Everything
@@ -241,7 +194,7 @@ struct rb_tab {
  * Writes into slack are caught for every size by the assigns clauses. */
 #define RB_PLACE(blk, cap, len, atend) (blk)
 
-static struct rb_tab rb_description(void)
+static struct rb_tab rb_description_of(bool linked)
 {
   struct rb_tab T;
   IN(uint32_t, in_na) IN(uint32_t, in_ne)
@@ -263,7 +216,12 @@ static struct rb_tab rb_description(void)
       in_asize = RB_SZ;
 #endif
       ASSUME(in_asize >= 1 && in_asize <= RB_SZ && RB_M64(in_abase) + in_asize <= 0xffffffffull);
+#ifdef RB_ADDR_WINDOW
+      ASSUME(in_abase < RB_ADDR_WINDOW);
+#endif
       ASSUME(in_akind <= 7 && IMPLIES(in_akind & (RB_AK_WRITE | RB_AK_READ), in_akind & RB_AK_MEM));
+      if (linked)            /* block access: memory-backed areas as MEMORY_AREA*() makes them */
+        ASSUME((in_akind & (RB_AK_READ | RB_AK_MEM)) == (RB_AK_READ | RB_AK_MEM));
       a->base = in_abase; a->size = in_asize; a->flags = in_aflags;
       a->read = (in_akind & RB_AK_READ) ? reg_mem_read : NULL;
       a->write = (in_akind & RB_AK_WRITE) ? reg_mem_write : NULL;
@@ -296,6 +254,9 @@ static struct rb_tab rb_description(void)
       in_etype = (uint8_t)rb_type_list[j];
 #endif
       e->type = (RegisterType)in_etype;
+#ifdef RB_ADDR_WINDOW
+      ASSUME(in_eaddr < RB_ADDR_WINDOW);
+#endif
       ASSUME(RB_M64(in_eaddr) + RB_WORDS(e->type) <= 0xffffffffull);
       e->default_value.u64 = in_edefault;
       e->address = in_eaddr;
@@ -307,6 +268,11 @@ static struct rb_tab rb_description(void)
         e->check.arg.cb = st_validator;
       e->name = NULL; e->user = NULL;
       e->area = NULL; e->offset = 0;
+      if (linked) {          /* what register_init leaves: pinned by the well-formedness assumption */
+        IN(uint32_t, in_eai) IN(uint32_t, in_eoffset)
+        ASSUME(in_eai < RB_NA);
+        e->area = &T.area[in_eai]; e->offset = in_eoffset;
+      }
     } else if (j == in_ne) {
       RegisterEntry end = REGISTER_ENTRY_END;
       T.entry[j] = end;
@@ -321,36 +287,46 @@ static struct rb_tab rb_description(void)
   return T;
 }
 
-/* snapshot of the description for the "unchanged" clauses */
-static void rb_snapshot(const struct rb_tab *T)
+static struct rb_tab rb_description(void)
 {
-  RegisterArea *a0 = malloc((RB_NA + 1) * sizeof(RegisterArea));
-  RegisterEntry *e0 = malloc((RB_NE + 1) * sizeof(RegisterEntry));
-  ASSUME(a0 != NULL && e0 != NULL);
-  for (uint32_t i = 0; i <= RB_NA; i++)
-    if (i <= T->na)
-      a0[i] = T->area[i];
-  for (uint32_t j = 0; j <= RB_NE; j++)
-    if (j <= T->ne)
-      e0[j] = T->entry[j];
-  g_rb.na = T->na; g_rb.ne = T->ne;
-  g_rb_na = T->na; g_rb_ne = T->ne;      /* terminator positions for the counters' contracts */
-  g_rb.area0 = a0; g_rb.entry0 = e0;
+  return rb_description_of(false);
 }
 
-/* the statement's postconditions of register_init, asserted after the call */
+/* value models of the table before and after the call */
+static struct rb_model rb_pre, rb_post;
+
+static void rb_take_pre(const struct rb_tab *T)
+{
+  rb_model_of(&rb_pre, T->t, T->na, T->ne);
+  g_rb.na = T->na; g_rb.ne = T->ne;
+  g_rb_na = T->na; g_rb_ne = T->ne;      /* terminator positions for the counters' contracts */
+}
+
+/* the statement's postconditions of register_init, asserted after the call.
+ * RB_POST_GROUP (target define) selects one group of clauses so that the
+ * groups are discharged by separate, parallel queries; 0 = all. */
+#ifndef RB_POST_GROUP
+#define RB_POST_GROUP 0
+#endif
+#define RB_G(n) (RB_POST_GROUP == 0 || RB_POST_GROUP == (n))
 #define RB_INIT_POST(t, r, be) do { \
-  CHECK(rb_init_verdict_ok(r, g_rb.init), "init: first violated rule and its offender, or success"); \
-  CHECK(IMPLIES(g_rb.init.code != REG_INIT_SUCCESS, !RB_INITIALISED(t)), "init: failure leaves the table uninitialised"); \
-  CHECK(IMPLIES(g_rb.init.code == REG_INIT_SUCCESS, \
-      RB_INITIALISED(t) && ((t)->flags & REG_TF_DURING_INIT) == 0 && (t)->areas == g_rb.na && (t)->entries == g_rb.ne), \
-      "init: success marks the table initialised and records its dimensions"); \
-  CHECK(RB_BE(t) == (be), "init: byte order kept"); \
-  CHECK(rb_description_same(t, g_rb.area0, g_rb.na, g_rb.entry0, g_rb.ne), "init: description unchanged"); \
-  CHECK(IMPLIES(g_rb.init.code == REG_INIT_SUCCESS, rb_table_wf(t)), \
-      "init: success leaves a well-formed table, every area records exactly its run of registers"); \
-  CHECK(IMPLIES(g_rb.init.code == REG_INIT_SUCCESS, rb_init_words_ok(t, g_rb.na, g_rb.ne, be)), \
-      "init: defaults loaded where areas load defaults, every other word zero"); \
+  rb_model_of(&rb_post, t, g_rb.na, g_rb.ne); \
+  if (RB_G(1)) { \
+    CHECK(rb_init_verdict_ok(r, g_rb.init), "init: first violated rule and its offender, or success"); \
+    CHECK(IMPLIES(g_rb.init.code != REG_INIT_SUCCESS, !RB_INITIALISED(t)), "init: failure leaves the table uninitialised"); \
+    CHECK(IMPLIES(g_rb.init.code == REG_INIT_SUCCESS, \
+        RB_INITIALISED(t) && ((t)->flags & REG_TF_DURING_INIT) == 0), "init: success marks the table initialised, init phase over"); \
+    CHECK(RB_BE(t) == (be), "init: byte order kept"); \
+  } \
+  if (RB_G(2)) { \
+    CHECK(rb_description_same(&rb_pre, &rb_post), "init: description unchanged"); \
+    CHECK(IMPLIES(g_rb.init.code == REG_INIT_SUCCESS, rb_model_wf(&rb_post)), \
+        "init: success leaves a well-formed table, every area records exactly its run of registers"); \
+  } \
+  if (RB_G(3)) { \
+    CHECK(IMPLIES(g_rb.init.code == REG_INIT_SUCCESS, rb_init_words_ok(&rb_pre, &rb_post, be)), \
+        "init: defaults loaded where areas load defaults, every other word zero"); \
+  } \
 } while (0)
 
 /* C04: register_init on an arbitrary description of the family */
@@ -359,23 +335,139 @@ void h_register_init(void)
   GHOST_HAVOC();
   struct rb_tab T = rb_description();
   bool be = (T.t->flags & REG_TF_BIG_ENDIAN) != 0;
-  rb_snapshot(&T);
-  g_rb.init = rb_spec_first_violation(T.area, T.na, T.entry, T.ne, be);
+  rb_take_pre(&T);
+  g_rb.init = rb_spec_first_violation(&rb_pre);
   RegisterInit r = register_init(T.t);
   RB_INIT_POST(T.t, r, be);
   VERIF_CANARY();
 }
 
-/* the same check without the contract machinery (whole stack inlined, no
- * frame check beyond the exact-size blocks and the "unchanged" clauses) */
-void h_register_init_plain(void)
+
+/* ---- initialised tables (C03, C02) ---------------------------------------
+ * A table of the family as register_init leaves it: rb_model_wf is ASSUMED
+ * (it is the postcondition of C04's targets), everything it does not pin is
+ * symbolic: stored words, area flags, write callback present or not, register
+ * flags, first/last of areas without registers.  The initialised flag itself
+ * is symbolic: without it nothing at all is assumed about the lists' content
+ * beyond their terminators. */
+static struct rb_tab rb_initialised_table(void)
+{
+  struct rb_tab T = rb_description_of(true);
+  T.t->areas = (AreaHandle)T.na; T.t->entries = T.ne;
+  rb_take_pre(&T);
+  ASSUME(IMPLIES(RB_INITIALISED(T.t), rb_model_wf(&rb_pre)));
+  return T;
+}
+
+/* caller buffer: block of RB_NB words; the n words handed to the call are its
+ * first n; words behind them must stay what they were.  n == RB_NB is part of
+ * the family: there an access behind the n words leaves the object. */
+static RegisterAtom *rb_buf, rb_buf0[RB_NB];
+
+static void rb_buffer(void)
+{
+  rb_buf = malloc(sizeof(RegisterAtom) * RB_NB);
+  ASSUME(rb_buf != NULL);
+  for (uint32_t i = 0; i < RB_NB; i++) {
+    IN(uint16_t, in_bufword)
+    rb_buf[i] = in_bufword;
+    rb_buf0[i] = in_bufword;
+  }
+}
+
+/* C03: block read */
+void h_register_block_read(void)
 {
   GHOST_HAVOC();
-  struct rb_tab T = rb_description();
-  bool be = (T.t->flags & REG_TF_BIG_ENDIAN) != 0;
-  rb_snapshot(&T);
-  g_rb.init = rb_spec_first_violation(T.area, T.na, T.entry, T.ne, be);
-  RegisterInit r = register_init(T.t);
-  RB_INIT_POST(T.t, r, be);
+  struct rb_tab T = rb_initialised_table();
+  IN(uint32_t, in_addr) IN(uint32_t, in_n)
+  ASSUME(in_n <= RB_NB && RB_M64(in_addr) + in_n <= 0xffffffffull);
+  rb_buffer();
+  struct rb_access_expect x = rb_spec_block_read(&rb_pre, in_addr, in_n);
+  RegisterAccess r = register_block_read(T.t, in_addr, in_n, rb_buf);
+  rb_model_of(&rb_post, T.t, T.na, T.ne);
+  CHECK(rb_access_verdict_ok(r, x),
+        "block read: succeeds iff all n addresses are mapped (n == 0 always), else reports the first unmapped address; uninitialised table reported as such");
+  for (uint32_t i = 0; i < RB_NB; i++) {
+    if (i < in_n)
+      CHECK(IMPLIES(x.code == REG_ACCESS_SUCCESS, rb_buf[i] == rb_spec_read_word(&rb_pre, in_addr, i)),
+            "block read: word i is the word stored at addr+i, zero for areas that are not readable");
+    else
+      CHECK(rb_buf[i] == rb_buf0[i], "block read: nothing outside the caller's n words is written");
+  }
+  CHECK(rb_model_same(&rb_pre, &rb_post), "block read: the table is unchanged");
+  VERIF_CANARY();
+}
+
+/* C03: iteration.  The callback is the stub rb_stub_iter (any result per
+ * call, logs its calls). */
+static registerCallback rb_pick_callback(void)
+{
+  return rb_stub_iter;
+}
+
+void h_register_foreach_in(void)
+{
+  GHOST_HAVOC();
+  struct rb_tab T = rb_initialised_table();
+  IN(uint32_t, in_addr) IN(uint32_t, in_off)
+  ASSUME(RB_M64(in_addr) + in_off <= 0xffffffffull);
+  IN_MEM(in_arg, 1)
+  g_it_table = T.t; g_it_arg = in_arg; g_it_calls = 0; g_it_bad = false; g_it_stopped = false;
+  for (uint32_t k = 0; k < RB_STUB_CALLS; k++) {
+    IN(int, st_rc)
+    st_it_rc[k] = st_rc;
+  }
+  struct rb_iter_expect x = rb_spec_iter(&rb_pre, in_addr, in_off);
+  RegisterAccess r = register_foreach_in(T.t, in_addr, in_off, rb_pick_callback(), in_arg);
+  rb_model_of(&rb_post, T.t, T.na, T.ne);
+  if (!RB_INITIALISED(T.t)) {
+    CHECK(r.code == REG_ACCESS_UNINITIALISED && g_it_calls == 0, "iteration: uninitialised table reported as such, no callback");
+  } else {
+    /* calls expected: the run of overlapping registers up to and including the first non-zero result */
+    uint32_t want = 0;
+    bool stopped = false;
+    int last_rc = 0;
+    for (uint32_t k = 0; k < RB_NE; k++)
+      if (k < x.count && !stopped) {
+        want = k + 1;
+        last_rc = st_it_rc[k];
+        stopped = last_rc != 0;
+      }
+    CHECK(!g_it_bad, "iteration: callback gets the table and the argument, and no call follows a non-zero result");
+    CHECK(g_it_calls == want, "iteration: callback called exactly for the registers overlapping the range, up to the first non-zero result");
+    for (uint32_t k = 0; k < RB_NE; k++)
+      if (k < want && k < g_it_calls)
+        CHECK(g_it_handle[k] == x.first + k, "iteration: registers visited in ascending order starting with the first one overlapping the range");
+    if (stopped && last_rc < 0)
+      CHECK(r.code == REG_ACCESS_FAILURE && r.address == rb_pre.e[x.first + want - 1 < RB_NE ? x.first + want - 1 : 0].address,
+            "iteration: negative callback result means failure at that register's address");
+    else
+      CHECK(r.code == REG_ACCESS_SUCCESS, "iteration: success unless a callback result is negative");
+  }
+  CHECK(rb_model_same(&rb_pre, &rb_post), "iteration: the table is unchanged");
+  VERIF_CANARY();
+}
+
+/* C02: block write */
+void h_register_block_write(void)
+{
+  GHOST_HAVOC();
+  struct rb_tab T = rb_initialised_table();
+  IN(uint32_t, in_addr) IN(uint32_t, in_n)
+  ASSUME(in_n <= RB_NB && RB_M64(in_addr) + in_n <= 0xffffffffull);
+  rb_buffer();
+  struct rb_access_expect x = rb_spec_block_write(&rb_pre, in_addr, in_n, rb_buf0);
+  RegisterAccess r = register_block_write(T.t, in_addr, in_n, rb_buf);
+  rb_model_of(&rb_post, T.t, T.na, T.ne);
+  CHECK(rb_access_verdict_ok(r, x),
+        "block write: succeeds iff all words mapped, all touched areas writable, every overlapped register still decodes and satisfies its constraint with the new words overlaid; else names the class and the first address inside the request at which it arises");
+  if (x.code == REG_ACCESS_SUCCESS && RB_INITIALISED(T.t))
+    CHECK(rb_write_done_ok(&rb_pre, &rb_post, in_addr, in_n, rb_buf0),
+          "block write: on success exactly the n words change and exactly the overlapped registers are marked touched");
+  else
+    CHECK(rb_model_same(&rb_pre, &rb_post), "block write: on failure no word and no flag of the table changes");
+  for (uint32_t i = 0; i < RB_NB; i++)
+    CHECK(rb_buf[i] == rb_buf0[i], "block write: the caller's buffer is not written");
   VERIF_CANARY();
 }
